@@ -31,3 +31,14 @@ Definition C19_parse_square := (parse_square_str_accepts, parse_square_str_round
 
 (** the decoder as found (uint8 cursor) crashes / returns a nil position without error *)
 Definition C19_legacy_refuted := (decode_legacy_crash, decode_legacy_nil, decode_repaired_rejects).
+
+(** * Engine.Move (engine part): accepted exactly when the string denotes a legal move of the current
+    position of the specification game; on acceptance the engine refines g_play; rejected input
+    leaves the engine state unchanged (Leibniz equality). *)
+From Morlock.Model Require Import Engine.
+From Morlock.Lemmas Require Import EngineLemmas1 EngineLemmas2.
+Definition C19_engine_move_iff_legal := @engine_move_iff_legal.
+Check @engine_move_iff_legal.
+Print Assumptions engine_move_iff_legal.
+Definition C19_rejected_unchanged := @engine_move_rejected_unchanged_any.
+Check @engine_move_rejected_unchanged_any.
